@@ -1014,6 +1014,110 @@ theorem operating_members_one_key {K : Type} [BEq K] [LawfulBEq K] (tss : TssKey
     rw [hokm] at hmem
     exact ((mem_opOf n excl e).1 hmem).2.2 he
 
+/-! ## `exec`: the real exclusion loop of `Execute` -/
+
+theorem foldl_step_all_admitted (self sess : Nat) (g : Group) (seats : List Nat) (l : List Msg) (s : St)
+    (h : ∀ m ∈ l, admitted self sess g seats m = true) :
+    ((l.map Ev.recv).foldl (step self sess g seats) s).hist = s.hist ++ l := by
+  induction l generalizing s with
+  | nil => simp
+  | cons a as ih =>
+    simp only [List.map_cons, List.foldl_cons]
+    rw [ih _ (fun m hm => h m (List.mem_cons_of_mem _ hm))]
+    simp [step, receive, h a (by simp)]
+
+theorem dedupFrom_of_nodup (seen : List Nat) (l : List Msg) (hn : (l.map (·.sender)).Nodup)
+    (hd : ∀ m ∈ l, m.sender ∉ seen) : dedupFrom seen l = l := by
+  induction l generalizing seen with
+  | nil => rfl
+  | cons a as ih =>
+    simp only [List.map_cons, List.nodup_cons, List.mem_map, not_exists, not_and] at hn
+    simp only [dedupFrom]
+    rw [if_neg (by simpa using hd a (by simp))]
+    congr 1
+    apply ih _ hn.2
+    intro m hm
+    simp only [List.mem_cons, not_or]
+    exact ⟨fun e => hn.1 m hm e, hd m (List.mem_cons_of_mem _ hm)⟩
+
+theorem count_with_self (self : Nat) (p : Nat → Bool) (l : List Nat) (hn : l.Nodup) :
+    (l.filter fun m => m == self || p m).length =
+      (l.filter fun m => !(m == self) && p m).length + (if self ∈ l then 1 else 0) := by
+  induction l with
+  | nil => simp
+  | cons a as ih =>
+    rw [List.nodup_cons] at hn
+    by_cases ha : a = self
+    · subst ha
+      have := ih hn.2
+      simp only [hn.1, if_false, Nat.add_zero] at this
+      simp [List.filter_cons, this]
+    · have h1 : (a == self) = false := by simpa using ha
+      have h2 : (self ∈ a :: as) ↔ self ∈ as := by
+        simp [List.mem_cons, Ne.symm ha]
+      simp only [List.filter_cons, h1, Bool.false_or, Bool.not_false, Bool.true_and, h2]
+      cases p a <;> simp [ih hn.2] <;> omega
+
+/-- the senders of the `exec` deliveries -/
+def execSenders (n self : Nat) (excl : List Nat) : List Nat :=
+  (List.range' 1 n).filter (fun m => !(m == self) && !excl.contains m)
+
+theorem execEvents_eq (n self : Nat) (excl : List Nat) :
+    execEvents n self excl = ((execSenders n self excl).map fun m => (⟨0, m, m, 1, m⟩ : Msg)).map Ev.recv := by
+  simp [execEvents, execSenders, List.map_map, Function.comp_def]
+
+/-- **holdsExec_model**: for every group size (`uint8`), member of the group and exclusion list, a
+    member whose group is what `Execute` must build (`memberGroup`: exactly the excluded others
+    disqualified) admits every delivered message, counts one message per other operating member and
+    leaves the first state: the `exec` monitor accepts the model's prediction. No tss-lib involved. -/
+theorem holdsExec_model (n self : Nat) (excl : List Nat) (hn : n ≤ 255) (h1 : 1 ≤ self) (h2 : self ≤ n) :
+    holdsExec (execReached n self excl (memberGroup n self excl)) = true := by
+  unfold holdsExec execReached
+  rw [execEvents_eq]
+  have hadm : ∀ x ∈ (execSenders n self excl).map (fun m => (⟨0, m, m, 1, m⟩ : Msg)),
+      admitted self 1 (memberGroup n self excl) (List.range' 1 n) x = true := by
+    intro x hx
+    obtain ⟨m, hm, rfl⟩ := List.mem_map.1 hx
+    rw [execSenders, List.mem_filter, List.mem_range'] at hm
+    obtain ⟨⟨k, hk, hmk⟩, hp⟩ := hm
+    have hm1 : 1 ≤ m := by omega
+    have hm2 : m ≤ n := by omega
+    simp only [Bool.and_eq_true, Bool.not_eq_true', beq_eq_false_iff_ne, ne_eq,
+      List.contains_eq_mem, decide_eq_false_iff_not] at hp
+    have hv : validMembership (List.range' 1 n) m m = true := by
+      unfold validMembership
+      have : (m + 255) % 256 = m - 1 := by omega
+      rw [this, List.getElem?_range' (by omega)]
+      simp; omega
+    have hop : (memberGroup n self excl).isOperating m = true := by
+      rw [memberGroup, isOperating_exclude, isOperating_new]
+      have a : decide (1 ≤ m) = true := by simpa using hm1
+      have b : decide (m ≤ n) = true := by simpa using hm2
+      have c : excl.contains m = false := by simpa using hp.2
+      rw [a, b, c]; simp
+    have hs : (m == self) = false := by simpa using hp.1
+    simp [admitted, shouldAccept, hs, hv, hop]
+  unfold run
+  rw [foldl_step_all_admitted self 1 _ _ _ ⟨0, []⟩ hadm]
+  simp only [List.nil_append, canTransition, kindOf, received, beq_iff_eq]
+  rw [List.filter_eq_self.2 (by
+    intro x hx
+    obtain ⟨m, _, rfl⟩ := List.mem_map.1 hx
+    rfl)]
+  rw [dedupFrom_of_nodup [] _ (by
+    rw [List.map_map]
+    simp only [Function.comp_def, List.map_id']
+    exact ((List.nodup_iff_pairwise_ne.2 ((List.pairwise_lt_range' (s := 1) (n := n)).imp
+      (fun h => Nat.ne_of_lt h))).sublist List.filter_sublist)) (by simp)]
+  rw [List.length_map, operating_memberGroup, execSenders]
+  have hc := count_with_self self (fun m => !excl.contains m) (List.range' 1 n)
+    (List.nodup_iff_pairwise_ne.2 ((List.pairwise_lt_range' (s := 1) (n := n)).imp
+      (fun h => Nat.ne_of_lt h)))
+  have hmem : self ∈ List.range' 1 n := by
+    rw [List.mem_range']; exact ⟨self - 1, by omega, by omega⟩
+  rw [if_pos hmem] at hc
+  exact hc.symm
+
 example : (memberGroup 5 1 [3, 3, 9, 1]).operating = [1, 2, 4, 5] := by decide
 example : misbehaved (memberGroup 5 1 [3, 3, 9, 1]) = [3] := by decide
 example : partyKeys 1000 (memberGroup 5 2 [4]) = [1001, 1002, 1003, 1005] := by decide
